@@ -213,7 +213,8 @@ def orders(k, max_full=4, max_inv=2):
     return out
 
 
-def explore_orders(thunk, deviations=1, max_full=4, only_call=None, pair_first=None):
+def explore_orders(thunk, deviations=1, max_full=4, only_call=None, pair_first=None,
+                   pair_limit=None):
     """run ``thunk`` under every schedule in which at most ``deviations`` Parallel calls use a
     non-identity task order.  Yields (schedule, Outcome-like (ok, value/exc)).  The first run
     (identity everywhere) discovers the call sizes."""
@@ -235,7 +236,8 @@ def explore_orders(thunk, deviations=1, max_full=4, only_call=None, pair_first=N
     if pair_first is not None:
         # shard of the two-deviation space: the first deviating call is the pair_first-th
         # multi-task call, the second any later one (single deviations belong to other shards)
-        for (c1, k1), (c2, k2) in itertools.combinations(multi, 2):
+        for (c1, k1), (c2, k2) in itertools.combinations(
+                multi if pair_limit is None else multi[:pair_limit], 2):
             if c1 != (multi[pair_first][0] if pair_first < len(multi) else None):
                 continue
             for p1 in orders(k1, 3, 1):
